@@ -1644,4 +1644,112 @@ theorem closure_p2pk_secp256k1_built (vk : Bytes → Bool) (flags : Nat) (cx : T
   rcases secpCompressedKey_head ((EC.ops EC.secp256k1).mul q EC.secp256k1.G) with h2 | h2 <;>
     · rw [h2] at h0; exact absurd h0 (by decide)
 
+/-- a signature element the library BUILT for the key `q`: `pk` is the compressed SEC spelling it writes for `q·G`
+    (`0 < q < n`), `sig` is DER(`_sign_recoverable_`(engine's digest for `(sc, sv, ht)`, q, k, low_s)) ‖ `ht`, `ht` one
+    of the six hash types ECDSA signing is defined for.  No encoding fact is assumed. -/
+def BuiltBySecp (cx : TxCtx) (sc : Bytes) (sv : SigVersion) (sig pk : Bytes) : Prop :=
+  ∃ (ht : Nat) (q k r s kid : Int) (der : Bytes), ht < 256 ∧ (1 ≤ ht % 128 ∧ ht % 128 ≤ 3) ∧
+    (0 < q ∧ q < EC.secp256k1.n) ∧ (0 < k ∧ k < EC.secp256k1.n) ∧
+    pk = secpCompressedKey ((EC.ops EC.secp256k1).mul q EC.secp256k1.G) ∧
+    Ecdsa.signRecoverable (EC.ops EC.secp256k1)
+      (Rfc6979.challenge EC.secp256k1.n (engineEcdsaDigest secpCrypto cx sc sv ht)) q k true = .ok (r, s, kid) ∧
+    Der.serialize r s = .ok der ∧ sig = der ++ [UInt8.ofNat ht]
+
+/-- what `BuiltBySecp` delivers: the old `MadeBySecp` (so the composed checker accepts), Core's encoding checks under
+    every flag set, the size window 9..73 and a compressed key -/
+theorem builtBySecp_facts (flags : Nat) (cx : TxCtx) (sc : Bytes) (sv : SigVersion) (sig pk : Bytes)
+    (h : BuiltBySecp cx sc sv sig pk) :
+    MadeBySecp cx sc sv sig pk ∧ checkSignatureEncoding flags sig = .ok () ∧ 9 ≤ sig.length ∧ sig.length ≤ 73 ∧
+      isCompressedPubKey pk = true := by
+  obtain ⟨ht, q, k, r, s, kid, der, hht, hd, hq, hk, epk, hsign, hder, e⟩ := h
+  obtain ⟨henc, h8, h72, _⟩ := built_sig_passes_encoding flags ht hht hd hk hsign der hder
+  subst e epk
+  refine ⟨⟨ht, q, k, r, s, kid, der, hht, hk, secpParsePub_built q hq, hsign, hder,
+    by simp only [Gen.VarInt.MAX_SIZE]; omega, rfl⟩, henc, ?_, ?_, secpCompressedKey_compressed _⟩ <;>
+  · simp only [List.length_append, List.length_singleton]; omega
+
+theorem aligned_forall_sig {chk : Bytes → Bytes → Prop} {ss ks : List Bytes} (h : Aligned chk ss ks) :
+    ∀ s ∈ ss, ∃ k ∈ ks, chk s k := by
+  induction h with
+  | nil ks => intro s hs; cases hs
+  | take hc _ ih =>
+    intro s hs
+    rcases List.mem_cons.mp hs with e | hm
+    · subst e; exact ⟨_, List.mem_cons_self, hc⟩
+    · obtain ⟨k, hk, hck⟩ := ih s hm; exact ⟨k, List.mem_cons_of_mem _ hk, hck⟩
+  | skip _ ih =>
+    intro s hs
+    obtain ⟨k, hk, hck⟩ := ih s hs; exact ⟨k, List.mem_cons_of_mem _ hk, hck⟩
+
+theorem built_aligned_facts (flags : Nat) (cx : TxCtx) (sc : Bytes) (sv : SigVersion) {sigs keys : List Bytes}
+    (hal : Aligned (BuiltBySecp cx sc sv) sigs keys) :
+    ∀ s ∈ sigs, checkSignatureEncoding flags s = .ok () ∧ 9 ≤ s.length ∧ s.length ≤ 73 := by
+  intro s hs
+  obtain ⟨k, _, hb⟩ := aligned_forall_sig hal s hs
+  have := builtBySecp_facts flags cx sc sv s k hb
+  exact ⟨this.2.1, this.2.2.1, this.2.2.2.1⟩
+
+/-- **T1 end to end on secp256k1 (p2wsh k-of-n multisig), on what the library builds**: `henc`, `hsl` and the key
+    read-back are proved of every signature; `hkeys` (ALL n keys compressed, incl. the non-signers') stays. -/
+theorem closure_multisig_p2wsh_secp256k1_built (flags : Nat) (cx : TxCtx) (h : Bytes) (keys sigs : List Bytes)
+    (hl : h.length = 32) (hW : has flags FLAG_WITNESS = true) (hnz : castToBool h = true)
+    (hh : sha256 (multisig sigs.length keys) = h)
+    (hn : 1 ≤ keys.length ∧ keys.length ≤ 16) (hk : 1 ≤ sigs.length ∧ sigs.length ≤ keys.length)
+    (hkeys : ∀ x ∈ keys, isCompressedPubKey x = true)
+    (hal : Aligned (BuiltBySecp cx (multisig sigs.length keys) .WITNESS_V0) sigs keys) :
+    verifyScript (envOf secpCrypto flags cx) [] (p2wsh h) (([] :: sigs) ++ [multisig sigs.length keys]) = .ok () := by
+  have hf := built_aligned_facts flags cx _ _ hal
+  exact closure_multisig_p2wsh_secp256k1 flags cx h keys sigs hl hW hnz hh hn hk hkeys
+    (fun s hs => by have := (hf s hs).2.2; omega)
+    (aligned_mono (fun sig pk hb => (builtBySecp_facts flags cx _ _ sig pk hb).1) hal)
+    (fun s hs => (hf s hs).1)
+
+/-- **T1 end to end on secp256k1 (p2sh-p2wsh k-of-n multisig), on what the library builds**. -/
+theorem closure_multisig_p2sh_p2wsh_secp256k1_built (flags : Nat) (cx : TxCtx) (h hr : Bytes) (keys sigs : List Bytes)
+    (hl : h.length = 32) (hrl : hr.length = 20)
+    (hP : has flags FLAG_P2SH = true) (hW : has flags FLAG_WITNESS = true) (hnz : castToBool h = true)
+    (hhr : ripemd160 (sha256 (p2wsh h)) = hr) (hh : sha256 (multisig sigs.length keys) = h)
+    (hn : 1 ≤ keys.length ∧ keys.length ≤ 16) (hk : 1 ≤ sigs.length ∧ sigs.length ≤ keys.length)
+    (hkeys : ∀ x ∈ keys, isCompressedPubKey x = true)
+    (hal : Aligned (BuiltBySecp cx (multisig sigs.length keys) .WITNESS_V0) sigs keys) :
+    verifyScript (envOf secpCrypto flags cx) (serializePushes [p2wsh h]) (p2sh hr)
+      (([] :: sigs) ++ [multisig sigs.length keys]) = .ok () := by
+  have hf := built_aligned_facts flags cx _ _ hal
+  exact closure_multisig_p2sh_p2wsh_secp256k1 flags cx h hr keys sigs hl hrl hP hW hnz hhr hh hn hk hkeys
+    (fun s hs => by have := (hf s hs).2.2; omega)
+    (aligned_mono (fun sig pk hb => (builtBySecp_facts flags cx _ _ sig pk hb).1) hal)
+    (fun s hs => (hf s hs).1)
+
+/-- **T1 end to end on secp256k1 (bare k-of-n multisig), on what the library builds**; `hsc` (FindAndDelete finds no
+    pushed signature) and `hkeys` stay. -/
+theorem closure_multisig_bare_secp256k1_built (flags : Nat) (cx : TxCtx) (keys sigs : List Bytes)
+    (hn : 1 ≤ keys.length ∧ keys.length ≤ 16) (hk : 1 ≤ sigs.length ∧ sigs.length ≤ keys.length)
+    (hkeys : ∀ x ∈ keys, isCompressedPubKey x = true)
+    (hsc : multisigScriptCode (evalCtx (envOf secpCrypto flags cx) .BASE (multisig sigs.length keys)) sigs.reverse
+      (multisig sigs.length keys) = .ok (multisig sigs.length keys))
+    (hal : Aligned (BuiltBySecp cx (multisig sigs.length keys) .BASE) sigs keys) :
+    verifyScript (envOf secpCrypto flags cx) (serializePushes ([] :: sigs)) (multisig sigs.length keys) [] = .ok () := by
+  have hf := built_aligned_facts flags cx _ _ hal
+  exact closure_multisig_bare_secp256k1 flags cx keys sigs hn hk hkeys
+    (fun s hs => by have h1 := (hf s hs).2.1; have h2 := (hf s hs).2.2; omega) hsc
+    (aligned_mono (fun sig pk hb => (builtBySecp_facts flags cx _ _ sig pk hb).1) hal)
+    (fun s hs => (hf s hs).1)
+
+/-- **T1 end to end on secp256k1 (legacy p2sh k-of-n multisig, n ≤ 15), on what the library builds**; `hsc`, `hkeys` stay. -/
+theorem closure_multisig_p2sh_secp256k1_built (flags : Nat) (cx : TxCtx) (hr : Bytes) (keys sigs : List Bytes)
+    (hrl : hr.length = 20) (hP : has flags FLAG_P2SH = true)
+    (hhr : ripemd160 (sha256 (multisig sigs.length keys)) = hr)
+    (hn : 1 ≤ keys.length ∧ keys.length ≤ 15) (hk : 1 ≤ sigs.length ∧ sigs.length ≤ keys.length)
+    (hkeys : ∀ x ∈ keys, isCompressedPubKey x = true)
+    (hsc : multisigScriptCode (evalCtx (envOf secpCrypto flags cx) .BASE (multisig sigs.length keys)) sigs.reverse
+      (multisig sigs.length keys) = .ok (multisig sigs.length keys))
+    (hal : Aligned (BuiltBySecp cx (multisig sigs.length keys) .BASE) sigs keys) :
+    verifyScript (envOf secpCrypto flags cx) (serializePushes (([] :: sigs) ++ [multisig sigs.length keys])) (p2sh hr) [] =
+      .ok () := by
+  have hf := built_aligned_facts flags cx _ _ hal
+  exact closure_multisig_p2sh_secp256k1 flags cx hr keys sigs hrl hP hhr hn hk hkeys
+    (fun s hs => by have h1 := (hf s hs).2.1; have h2 := (hf s hs).2.2; omega) hsc
+    (aligned_mono (fun sig pk hb => (builtBySecp_facts flags cx _ _ sig pk hb).1) hal)
+    (fun s hs => (hf s hs).1)
+
 end Props.C10
